@@ -377,9 +377,11 @@ impl Pool {
          *
          * o The client's current address as recorded in the client's current
          *   binding, ELSE */
-        if let Some(lease) = self
+        /* The client can hold leases that are not in this pool (eg it moved between networks),
+         * so look for the best of its bindings that is. */
+        if let Some((ip, lease)) = self
             .conn
-            .query_row(
+            .prepare(
                 "SELECT
                address,
                expiry,
@@ -390,26 +392,31 @@ impl Pool {
              AND expiry > ?2
              ORDER BY
               address=?3 DESC,
-              expiry DESC
-             LIMIT 1",
-                rusqlite::params![
-                    clientid,
-                    ts as u32,
-                    requested
-                        .map(|ip| ip.to_string())
-                        .unwrap_or_else(|| "".into())
-                ],
-                |row| {
-                    Ok(Some((
-                        row.get::<usize, String>(0)?,
-                        row.get::<usize, u32>(1)?,
-                        row.get::<usize, u32>(2)?,
-                    )))
-                },
+              expiry DESC",
             )
-            .or_else(map_no_row_to_none)?
-            && let Ok(ip) = lease.0.parse::<std::net::Ipv4Addr>()
-            && addresses.contains(&ip)
+            .and_then(|mut stmt| {
+                stmt.query_map(
+                    rusqlite::params![
+                        clientid,
+                        ts as u32,
+                        requested
+                            .map(|ip| ip.to_string())
+                            .unwrap_or_else(|| "".into())
+                    ],
+                    |row| {
+                        Ok((
+                            row.get::<usize, String>(0)?,
+                            row.get::<usize, u32>(1)?,
+                            row.get::<usize, u32>(2)?,
+                        ))
+                    },
+                )?
+                .collect::<Result<Vec<_>, _>>()
+            })
+            .map_err(|e| Error::emit("Finding current lease", &e))?
+            .into_iter()
+            .filter_map(|lease| Some((lease.0.parse::<std::net::Ipv4Addr>().ok()?, lease)))
+            .find(|(ip, _)| addresses.contains(ip))
         {
             // We want leases to double in size.  But normally you renew your
             // lease at ½ the duration.  We don't want to always just double
@@ -428,9 +435,9 @@ impl Pool {
          * expired or released) binding, if that address is in the server's
          * pool of available addresses and not already allocated, ELSE */
 
-        if let Some(lease) = self
+        if let Some((ip, lease)) = self
             .conn
-            .query_row(
+            .prepare(
                 "SELECT
                address,
                start,
@@ -442,25 +449,30 @@ impl Pool {
              ORDER BY
                address=?2 DESC,
                expire_time DESC
-             LIMIT 1
              ",
-                rusqlite::params![
-                    clientid,
-                    requested
-                        .map(|ip| ip.to_string())
-                        .unwrap_or_else(|| "".into())
-                ],
-                |row| {
-                    Ok(Some((
-                        row.get::<usize, String>(0)?,
-                        row.get::<usize, u32>(1)?,
-                        row.get::<usize, u32>(2)?,
-                    )))
-                },
             )
-            .or_else(map_no_row_to_none)?
-            && let Ok(ip) = lease.0.parse::<std::net::Ipv4Addr>()
-            && addresses.contains(&ip)
+            .and_then(|mut stmt| {
+                stmt.query_map(
+                    rusqlite::params![
+                        clientid,
+                        requested
+                            .map(|ip| ip.to_string())
+                            .unwrap_or_else(|| "".into())
+                    ],
+                    |row| {
+                        Ok((
+                            row.get::<usize, String>(0)?,
+                            row.get::<usize, u32>(1)?,
+                            row.get::<usize, u32>(2)?,
+                        ))
+                    },
+                )?
+                .collect::<Result<Vec<_>, _>>()
+            })
+            .map_err(|e| Error::emit("Finding previous lease", &e))?
+            .into_iter()
+            .filter_map(|lease| Some((lease.0.parse::<std::net::Ipv4Addr>().ok()?, lease)))
+            .find(|(ip, _)| addresses.contains(ip))
         {
             return Ok(Lease {
                 ip,
